@@ -165,8 +165,8 @@ func dispatchSpecial(i *interpreter, fr *frame, fn *ssa.Function, args []value) 
 	if ext := externals[name]; ext != nil {
 		return ext(fr, args), true
 	}
-	if fn.Pkg != nil && strings.Contains(fn.Pkg.Pkg.Path(), targetPathFragment) {
-		if h := harnessAPI[fn.Name()]; h != nil && fn.Signature.Recv() == nil {
+	if h := harnessAPI[fn.Name()]; h != nil && fn.Pkg != nil && fn.Signature.Recv() == nil && strings.Contains(fn.Pkg.Pkg.Path(), targetPathFragment) {
+		{
 			return h(fr, args), true
 		}
 	}
@@ -305,6 +305,11 @@ func init() {
 			out[k] = concValue(fr, b, "vConcretizeBytes")
 		}
 		return out
+	}
+	h["vSetClock"] = func(fr *frame, args []value) value {
+		fr.i.run.clockMode = 2
+		fr.i.run.clockFixed = args[0]
+		return nil
 	}
 	h["vClockSymbolic"] = func(fr *frame, args []value) value { fr.i.run.clockMode = 1; return nil }
 	h["vFatal"] = func(fr *frame, args []value) value {
@@ -502,6 +507,9 @@ func init() {
 
 // nextClock returns the next reading of the wall clock in nanoseconds.
 func (r *Run) nextClock() value {
+	if r.clockMode == 2 {
+		return r.clockFixed
+	}
 	if r.clockMode == 0 {
 		r.clock += 1_000_003
 		return r.clock
